@@ -99,6 +99,7 @@ fn show(v: &[u64]) -> String {
 
 pub fn check(depth: u8, h: u64, delta: u8, use_free_fns: bool, part: &mut Part) -> Option<Viol> {
   let case = case_json(depth, h, delta);
+  journal("edges", || case.clone());
   let dd = depth + delta;
   let walk = ref_internal_walk(depth, h, delta);
   let expected_len = (4usize << delta) - 4;
@@ -269,6 +270,7 @@ pub fn check(depth: u8, h: u64, delta: u8, use_free_fns: bool, part: &mut Part) 
 pub fn check_internal_huge(depth: u8, h: u64, delta: u8, part: &mut Part) -> Option<Viol> {
   let mut case = case_json(depth, h, delta);
   case["internal_only"] = json!(true);
+  journal("edges (huge delta)", || case.clone());
   let m = (1u32 << delta) - 1;
   let expected_len = (4usize << delta) - 4;
   let ie = match guarded(move || nested::internal_edge(depth, h, delta)) {
